@@ -111,6 +111,10 @@ var mgWants = []mgWant{
 	{"internal/trigger/file/stages_worker.go", "", "runStage", "#0", "file_stageGoroutine"},
 	{"internal/trigger/file/stages_worker.go", "", "setEnvs", "", "file_setEnvs"},
 	{"internal/trigger/file/stages_worker.go", "", "unsetEnvs", "", "file_unsetEnvs"},
+	{"internal/trigger/file/file_rate.go", "", "Rate", "#0", "file_New"},
+	{"internal/run/test_runner.go", "", "NewRun", "", "run_NewRun"},
+	{"internal/workers/active_scenario.go", "", "NewActiveScenario", "", "active_New"},
+	{"internal/workers/active_scenario.go", "ActiveScenario", "Teardown", "", "active_Teardown"},
 	{"pkg/f1/f1.go", "F1", "execute", "", "f1_execute"},
 	{"pkg/f1/f1.go", "", "newSignalContext", "", "f1_newSignalContext"},
 	{"pkg/f1/f1.go", "", "newSignalContext", "#0", "f1_signalLoop"},
@@ -694,12 +698,23 @@ func (c *mgCtx) naryPkgCall(e ast.Expr) (string, []ast.Expr, bool) {
 	if !ok || len(call.Args) < 3 {
 		return "", nil, false
 	}
+	if fid, isId := call.Fun.(*ast.Ident); isId {
+		// f(a, b, c, …): a function of this package (declared in this file or another one), not a function value
+		if c.rename[fid.Name] == "" && c.alias[fid.Name] == "" && (fid.Obj == nil || fid.Obj.Kind == ast.Fun) && !isFuncValue(call.Fun) {
+			return fid.Name, call.Args, true
+		}
+		return "", nil, false
+	}
 	sel, ok := call.Fun.(*ast.SelectorExpr)
 	if !ok {
 		return "", nil, false
 	}
 	id, ok := sel.X.(*ast.Ident)
 	if !ok || id.Obj != nil || c.rename[id.Name] != "" || c.alias[id.Name] != "" {
+		// x.y.M(a, b, c, …): a method of something this function holds
+		if recv := c.path(sel.X); recv != "" && !isFuncValue(call.Fun) {
+			return recv + "." + sel.Sel.Name, call.Args, true
+		}
 		return "", nil, false
 	}
 	return id.Name + "." + sel.Sel.Name, call.Args, true
@@ -1277,6 +1292,26 @@ func (c *mgCtx) stmt(s ast.Stmt) string {
 						k, ok := kv.Key.(*ast.Ident)
 						if !ok {
 							return c.unsupportedS(s)
+						}
+						if inner, isLit := kv.Value.(*ast.CompositeLit); isLit && len(inner.Elts) > 0 {
+							// a nested literal F: U{G: e, …}: its fields as `$ret.F.G`
+							okAll := true
+							for _, iel := range inner.Elts {
+								ikv, ok := iel.(*ast.KeyValueExpr)
+								if !ok {
+									okAll = false
+									break
+								}
+								ik, ok := ikv.Key.(*ast.Ident)
+								if !ok {
+									okAll = false
+									break
+								}
+								parts = append(parts, "(.assign "+leanStr("$ret."+k.Name+"."+ik.Name)+" "+c.expr(ikv.Value)+")")
+							}
+							if okAll {
+								continue
+							}
 						}
 						parts = append(parts, "(.assign "+leanStr("$ret."+k.Name)+" "+c.expr(kv.Value)+")")
 					}
